@@ -10,6 +10,7 @@ import (
 
 	"istio.io/istio/pilot/pkg/model"
 	"istio.io/istio/pkg/config"
+	"istio.io/istio/pkg/config/host"
 	"verifharness/internal/wire"
 )
 
@@ -61,7 +62,10 @@ func showCfgs(l []*config.Config) string {
 }
 
 func showDRs(sc *model.SidecarScope) string {
-	m := model.VerifC07ScopeDestinationRules(sc)
+	return showDRMap(model.VerifC07ScopeDestinationRules(sc))
+}
+
+func showDRMap(m map[host.Name][]*model.ConsolidatedDestRule) string {
 	if len(m) == 0 {
 		return "-"
 	}
@@ -125,7 +129,32 @@ func showScope(sc *model.SidecarScope) string {
 		"S=" + showSvcs(sc.Services(), true),
 		"L=" + strings.Join(ls, ";"),
 		"D=" + showDRs(sc),
+		"I=" + showIndex(sc),
 	}, " ")
+}
+
+// showIndex: SidecarScope.servicesByHostname (what GetService / EDS / the cluster builder look up), in
+// key order; a key that differs from the hostname of its service is marked.
+func showIndex(sc *model.SidecarScope) string {
+	m := sc.ServicesByHostname()
+	if len(m) == 0 {
+		return "-"
+	}
+	ks := make([]string, 0, len(m))
+	for k := range m {
+		ks = append(ks, string(k))
+	}
+	sort.Strings(ks)
+	items := make([]string, 0, len(ks))
+	for _, k := range ks {
+		v := m[host.Name(k)]
+		it := showSvc(v)
+		if string(v.Hostname) != k {
+			it = "KEY!" + wire.Enc(k) + "!" + it
+		}
+		items = append(items, it)
+	}
+	return strings.Join(items, ",")
 }
 
 func (w *world) scopeFor(ns string, lbl map[string]string) *model.SidecarScope {
@@ -189,7 +218,19 @@ func (w *world) showMerged() string {
 			}
 			j = strings.Join(e, "+")
 		}
-		items = append(items, wire.Enc(mv.Namespace+"/"+mv.Name)+">"+j)
+		var routes []string
+		for _, h := range mv.Spec.(*networking.VirtualService).Http {
+			var srcs []string
+			for _, m := range h.Match {
+				srcs = append(srcs, m.SourceNamespace)
+			}
+			routes = append(routes, encItems(srcs, "|"))
+		}
+		rj := "-"
+		if len(routes) > 0 {
+			rj = strings.Join(routes, ";")
+		}
+		items = append(items, wire.Enc(mv.Namespace+"/"+mv.Name)+">"+j+">"+rj)
 	}
 	sort.Strings(items)
 	if len(items) == 0 {
@@ -203,11 +244,26 @@ func (w *world) queryScope(t []string) string {
 	case t[0] == "scope" && len(t) == 3:
 		lbl, _ := decLabels(t[2])
 		return showScope(w.scopeFor(wire.Dec(t[1]), lbl))
+	case t[0] == "drq" && len(t) == 3:
+		// PushContext.destinationRule for a service object that only carries a hostname (the rule lookup for a
+		// bare cluster hostname): the service namespace comes from the services exported to the proxy namespace
+		h := wire.Dec(t[2])
+		l := model.VerifC07DestinationRule(w.ps, wire.Dec(t[1]), &model.Service{Hostname: hostName(h)})
+		if len(l) == 0 {
+			return "-"
+		}
+		return showDRMap(map[host.Name][]*model.ConsolidatedDestRule{hostName(h): l})
 	case t[0] == "gw" && len(t) == 2:
 		return showScope(w.gatewayScopeFor(wire.Dec(t[1])))
-	case (t[0] == "xds" || t[0] == "routes" || t[0] == "eds") && len(t) >= 3:
+	case t[0] == "gw" && len(t) == 3:
+		p := &model.Proxy{Type: model.Waypoint, ConfigNamespace: wire.Dec(t[1]), Metadata: &model.NodeMetadata{Namespace: wire.Dec(t[1])}}
+		p.SetSidecarScope(w.ps)
+		return showScope(p.SidecarScope)
+	case (t[0] == "xds" || t[0] == "routes" || t[0] == "eds" || t[0] == "lds" || t[0] == "rds") && len(t) >= 3:
 		return w.queryXDS(t)
 	case t[0] == "xdsgw" && len(t) == 2:
+		return w.queryXDS(t)
+	case t[0] == "xdsgwf" && len(t) == 3:
 		return w.queryXDS(t)
 	case t[0] == "vsgw" && len(t) == 3:
 		return showCfgs(w.ps.VirtualServicesForGateway(wire.Dec(t[1]), wire.Dec(t[2])))
@@ -379,6 +435,37 @@ func (w *world) aliasVisibleDoc(ans, ahost, ns string) bool {
 	return false
 }
 
+// fqdn: the documented reading of a short name in a VirtualService / DestinationRule of namespace ns.
+func fqdn(ns, h string) string {
+	if h == "" || h == "*" || strings.Contains(h, ".") {
+		return h
+	}
+	return h + "." + ns + ".svc.cluster.local"
+}
+
+// vsHostsDoc: the hosts of a VirtualService with short names resolved (not for gateway-semantics routes).
+func vsHostsDoc(v *vsSpec) []string {
+	if v.gwSem {
+		return v.hosts
+	}
+	out := make([]string, len(v.hosts))
+	for i, h := range v.hosts {
+		out[i] = fqdn(v.ns, h)
+	}
+	return out
+}
+
+func resolveDests(v *vsSpec, ds []destSpec) []destSpec {
+	if v.gwSem {
+		return ds
+	}
+	out := make([]destSpec, len(ds))
+	for i, d := range ds {
+		out[i] = destSpec{fqdn(v.ns, d.host), d.port}
+	}
+	return out
+}
+
 func (w *world) vsByKey(key string) *vsSpec {
 	for i := range w.vss {
 		if w.vss[i].ns+"/"+w.vss[i].name == key {
@@ -434,7 +521,7 @@ func vsOnMeshDoc(v *vsSpec) bool {
 // (coverage for gateway-semantics routes, overlap in either direction otherwise) and is not
 // covered by a "~" entry of those namespaces.
 func vsImportedDoc(cfgNs string, hosts []string, v *vsSpec) bool {
-	for _, h := range v.hosts {
+	for _, h := range vsHostsDoc(v) {
 		imp, excl := false, false
 		for _, eh := range hosts {
 			e, ok := parseEgress(cfgNs, eh)
@@ -483,16 +570,58 @@ func (w *world) delegateDoc(root *vsSpec, ref *[2]string) *vsSpec {
 // httpRoutesDoc: the http routes of a VirtualService with its exported delegates folded in.
 func (w *world) httpRoutesDoc(v *vsSpec) []httpSpec {
 	var out []httpSpec
+	res := func(owner *vsSpec, hs []httpSpec) {
+		for _, h := range hs {
+			h.dests = resolveDests(owner, h.dests)
+			out = append(out, h)
+		}
+	}
 	for _, h := range v.http {
 		if h.delegate == nil || v.gwSem {
-			out = append(out, h)
+			res(v, []httpSpec{h})
 			continue
 		}
 		if d := w.delegateDoc(v, h.delegate); d != nil {
-			out = append(out, d.http...)
+			// the delegate's routes apply under the root route's match: with both sides naming source
+			// namespaces, a delegate route only keeps the source namespaces the root route admits too
+			// (a delegate match the root does not cover voids the whole delegate route)
+			var kept []httpSpec
+			for _, dr := range d.http {
+				if m, ok := mergedSourcesDoc(h.srcNs, dr.srcNs); ok {
+					dr.srcNs = m
+					kept = append(kept, dr)
+				}
+			}
+			res(d, kept)
 		}
 	}
 	return out
+}
+
+// mergedSourcesDoc: the source-namespace matches of a delegate route under a root route (VirtualService
+// delegation docs: "the delegate's match must be a subset of the root's, otherwise it is a conflict and
+// the route does not take effect"; an empty side means "no restriction from that side").
+func mergedSourcesDoc(root, dlg []string) ([]string, bool) {
+	if len(root) == 0 {
+		return dlg, true
+	}
+	if len(dlg) == 0 {
+		return root, true
+	}
+	var out []string
+	for _, d := range dlg {
+		covered := false
+		for _, r := range root {
+			if r == "" || r == d {
+				covered = true
+				out = append(out, d)
+			}
+		}
+		if !covered {
+			return nil, false
+		}
+	}
+	return out, len(out) > 0
 }
 
 func (w *world) vsDestHostsFor(v *vsSpec, ns string) map[string]bool {
@@ -511,7 +640,7 @@ func (w *world) vsDestHostsFor(v *vsSpec, ns string) map[string]bool {
 			out[d.host] = true
 		}
 	}
-	for _, d := range v.tcp {
+	for _, d := range resolveDests(v, v.tcp) {
 		out[d.host] = true
 	}
 	return out
@@ -524,7 +653,7 @@ func vsDestHosts(v *vsSpec) map[string]bool {
 			out[d.host] = true
 		}
 	}
-	for _, d := range v.tcp {
+	for _, d := range resolveDests(v, v.tcp) {
 		out[d.host] = true
 	}
 	return out
@@ -603,8 +732,93 @@ func documentedListeners(exp *sidecarSpec) []oracleListener {
 	return out
 }
 
+// branch counters: how often the generated cases reach the rare paths (computed from the specs and the real
+// outputs, written next to the verdict file and copied into the evidence).
+var branchCounters = map[string]int{}
+
+func cnt(name string) { branchCounters["branch."+name]++ }
+
+func (w *world) countBranches(sc *model.SidecarScope, ns string, listeners []oracleListener) {
+	for _, l := range listeners {
+		exact, n, fallback := true, 0, false
+		for _, h := range l.hosts {
+			e, ok := parseEgress(ns, h)
+			if !ok || e.excluded {
+				continue
+			}
+			n++
+			if e.ns == "*" || isWildcard(e.pat) {
+				exact = false
+				continue
+			}
+			for i := range w.svcs {
+				if w.svcs[i].ns == e.ns && w.svcs[i].hostname == e.pat && !w.documentedVisible(&w.svcs[i], ns) {
+					fallback = true
+				}
+			}
+		}
+		if exact && n > 0 {
+			cnt("exact-host-fast-path")
+			if fallback {
+				cnt("exact-host-hidden-entry-f10")
+			}
+		}
+	}
+	// a Kubernetes service of a later egress listener replaced a non-Kubernetes one
+	final := map[string]*model.Service{}
+	for _, s := range sc.Services() {
+		final[string(s.Hostname)] = s
+	}
+	for _, l := range sc.EgressListeners {
+		for _, s := range l.Services() {
+			f := final[string(s.Hostname)]
+			if f != nil && svcID(f) != svcID(s) && w.byID[svcID(f)] != nil && w.byID[svcID(s)] != nil &&
+				w.byID[svcID(f)].k8s && !w.byID[svcID(s)].k8s {
+				cnt("kubernetes-replaces-serviceentry")
+			}
+		}
+	}
+	// DestinationRule taken from the root namespace (step 4 of destinationRule)
+	for h, cs := range model.VerifC07ScopeDestinationRules(sc) {
+		svcNs := ""
+		if f := final[string(h)]; f != nil {
+			svcNs = f.Attributes.Namespace
+		}
+		for _, c := range cs {
+			for _, f := range model.VerifC07From(c) {
+				if f.Namespace == w.mesh.root && ns != w.mesh.root && svcNs != w.mesh.root {
+					cnt("destinationrule-from-root-namespace")
+				}
+			}
+		}
+	}
+	// a VirtualService destination resolved among several visible namespaces
+	for _, l := range sc.EgressListeners {
+		for _, c := range l.VirtualServices() {
+			v := w.vsByKey(c.Namespace + "/" + c.Name)
+			if v == nil {
+				continue
+			}
+			for h := range w.vsDestHostsFor(v, ns) {
+				nss := map[string]bool{}
+				for i := range w.svcs {
+					if w.svcs[i].hostname == h && w.documentedVisible(&w.svcs[i], ns) {
+						nss[w.svcs[i].ns] = true
+					}
+				}
+				if !nss[ns] && len(nss) >= 2 {
+					cnt("vs-destination-several-namespaces")
+				}
+			}
+		}
+	}
+}
+
 func (w *world) oracleOneScope(sc *model.SidecarScope, ns string, gateway bool, exp *sidecarSpec) string {
 	listeners := documentedListeners(exp)
+	if !gateway {
+		w.countBranches(sc, ns, listeners)
+	}
 	// soundness: every delivered service is exported to ns and imported
 	inScope := map[string]bool{}
 	byHost := map[string]*model.Service{}
@@ -630,6 +844,7 @@ func (w *world) oracleOneScope(sc *model.SidecarScope, ns string, gateway bool, 
 				imported = true
 			}
 		}
+		hostImported := imported
 		if !imported && !gateway {
 			// destination of a mesh-gateway VirtualService that is exported to ns and imported by a
 			// listener's host list - all three judged from the documented rules, not from the real
@@ -645,6 +860,9 @@ func (w *world) oracleOneScope(sc *model.SidecarScope, ns string, gateway bool, 
 		}
 		if !imported {
 			return "leak-not-imported " + sp.id + " " + ns
+		}
+		if !hostImported && !gateway {
+			cnt("service-imported-through-virtualservice-only")
 		}
 		// every alias hostname carried by the service (a route domain / SNI of that service) stands
 		// for an ExternalName service that is exported to ns
@@ -807,6 +1025,7 @@ func (w *world) oracleOneScope(sc *model.SidecarScope, ns string, gateway bool, 
 		if win == nil {
 			return "missing-no-winner " + sp.id + " " + ns
 		}
+		cnt("service-displaced-by-same-hostname-winner")
 		wsp := w.byID[svcID(win)]
 		if wsp == nil || !w.documentedVisible(wsp, ns) {
 			return "missing-winner-not-visible " + sp.id + " " + ns
@@ -830,13 +1049,45 @@ func (w *world) oracleQuery(t []string) string {
 			if v := w.oracleOneScope(sc, ns, false, w.expectedSidecar(ns, lbl)); v != "" {
 				return v
 			}
-		case t[0] == "gw" && len(t) == 2:
+		case t[0] == "gw" && (len(t) == 2 || len(t) == 3):
 			ns := wire.Dec(t[1])
 			if v := w.oracleOneScope(w.gatewayScopeFor(ns), ns, true, nil); v != "" {
 				return v
 			}
+		case t[0] == "drq" && len(t) == 3:
+			// the rule lookup for a bare hostname: whatever it returns is exported to the asking namespace
+			ns, h := wire.Dec(t[1]), wire.Dec(t[2])
+			cnt("drq-bare-hostname-lookup")
+			for _, c := range model.VerifC07DestinationRule(w.ps, ns, &model.Service{Hostname: hostName(h)}) {
+				var from []string
+				for _, f := range model.VerifC07From(c) {
+					from = append(from, f.Namespace+"/"+f.Name)
+				}
+				for _, k := range from {
+					d := w.drByKey(k)
+					if d == nil {
+						return "dr-unknown " + k
+					}
+					if !w.drVisibleDoc(d, ns) {
+						return w.drNotExportedKind(d, ns, from) + " " + k + " " + ns + " bare-hostname " + wire.Enc(h)
+					}
+				}
+			}
+		case t[0] == "xdsgwf" && len(t) == 3:
+			cnt("router-cds-gateway-cluster-filter")
+			ns := wire.Dec(t[1])
+			cl := w.filteredRouterClusters(ns, t[2] == "1")
+			if len(cl) > 0 {
+				cnt("router-cds-gateway-cluster-filter-nonempty")
+			}
+			if v := w.oracleRouterClusters(ns, cl); v != "" {
+				return "filtered-" + v
+			}
 		case t[0] == "xdsgw" && len(t) == 2:
 			if v := w.oracleRouter(wire.Dec(t[1])); v != "" {
+				return v
+			}
+			if v := w.oracleRouterRoutes(wire.Dec(t[1])); v != "" {
 				return v
 			}
 		case t[0] == "vsgw" && len(t) == 3:
@@ -865,7 +1116,7 @@ func (w *world) oracleQuery(t []string) string {
 						allowed[d.host] = true
 					}
 				}
-				for _, d := range v.tcp {
+				for _, d := range resolveDests(v, v.tcp) {
 					allowed[d.host] = true
 				}
 				for _, h := range mergedDests(mv.Spec.(*networking.VirtualService)) {
@@ -879,6 +1130,12 @@ func (w *world) oracleQuery(t []string) string {
 			if v := w.oracleXDS(wire.Dec(t[1]), lbl); v != "" {
 				return v
 			}
+		case (t[0] == "eds" || t[0] == "lds" || t[0] == "rds") && (len(t) == 3 || len(t) == 4):
+			// compared line by line in the differential; the oracle states its clauses on the same proxy under `xds`
+		case (t[0] == "exported" && len(t) == 2) || (t[0] == "visible" && len(t) == 3) || (t[0] == "index" && len(t) == 2):
+		default:
+			// a line no reader of the case understands (a corpus file in an outdated format) must not pass silently
+			return "unreadable-line " + wire.Enc(strings.Join(t, " "))
 		}
 	}
 	return ""
